@@ -48,6 +48,8 @@ def one_case(ctx, case: dict):
             return assoc_case(ctx, d, case)
         if variant == 'species':
             return species_case(ctx, d, case)
+        if variant == 'samename':
+            return samename_case(ctx, d, case)
         tags = build_inputs(d, stores)
         names = [s['name'] for s in stores]
         inputs = list(names)
@@ -245,6 +247,58 @@ def species_case(ctx, d, case):
         ctx.diverge('merged species decode: model vs implementation', {**case, 'model': m, 'impl': got})
 
 
+def samename_case(ctx, d, case):
+    """Inputs in different directories whose FILE NAMES are equal (`a/x.nc`, `b/x.nc`, …): they would overwrite each other in the
+    merged directory. The merge must either produce the concatenation or refuse and touch nothing — and the model refuses."""
+    from AEIC.trajectories import TrajectoryStore
+
+    stores = case['stores']
+    out_name = 'merged.aeic-store'
+    tags = {}
+    paths = []
+    for j, st in enumerate(stores):
+        sub = d / f'dir{j}'
+        sub.mkdir()
+        tags.update(build_inputs(sub, [dict(st, name='x.nc')]))
+        paths.append(sub / 'x.nc')
+    before = {str(p): p.stat().st_size for p in paths}
+    concat = [f"t{a['tag']}" for s in stores for a in s['adds']]
+    try:
+        TrajectoryStore.merge(d / out_name, list(paths))
+        res = 'ok'
+    except ValueError:
+        res = 'refused'
+    except Exception as e:  # noqa: BLE001
+        res = 'err:' + err_kind(e)
+    gc.collect()
+    mfiles = model_files([dict(stores[0], name='x.nc')])
+    m = ctx.driver.outs([{'op': 'merge.merge', 'top': mfiles, 'inputs': ['x.nc'] * len(stores)}])[0]
+    m_res = 'refused' if m['result'].startswith('refused') else m['result']
+    key = {'variant': 'samename', 'layout': [[(a['npts'], a['fid']) for a in s['adds']] for s in stores]}
+    ctx.case(json.dumps(key, sort_keys=True), nontrivial=True, sample={'variant': 'samename', 'sizes': [len(s['adds']) for s in stores], 'result': res})
+    ctx.count('variant:samename')
+    ctx.count('result:' + res)
+    public = {**case, 'input_paths': [f'dir{j}/x.nc' for j in range(len(stores))]}
+    if res == 'ok':
+        got = read_all(d / out_name, tags, cache_mb=case['cache_mb'])
+        if got != concat:
+            ctx.clause_fail('merged_get_eq_concat', {**public, 'impl': got, 'expected': concat},
+                            detail='inputs with equal file names in different directories: the merged store is not the concatenation of the inputs '
+                                   '(the inputs overwrite each other in the merged directory)')
+            return
+    elif res == 'refused':
+        after = {str(p): (p.stat().st_size if p.exists() else None) for p in paths}
+        if after != before or (d / out_name).exists():
+            ctx.clause_fail('refused_merge_touches_nothing', {**public, 'before': before, 'after': after},
+                            detail='a merge refused for equal input file names moved or changed an input, or left the output directory')
+            return
+    else:
+        ctx.clause_fail('merge_succeeds', {**public, 'impl_result': res}, detail=f'merge of inputs with equal file names failed with {res}')
+        return
+    if res != m_res:
+        ctx.diverge('merge outcome model vs implementation (equal input file names)', {**public, 'impl': res, 'model': m['result']})
+
+
 def trace_locate(ctx, path, n):
     """Validates what `harness/common/locprog.py` read from `_load_trajectory` (which bisect, needle and local offsets, the guard)
     against the running code: for every index of a real merged store (and two past the end) the frame of `_load_trajectory` is
@@ -361,7 +415,9 @@ def gen_case_plain(rng):
         variant = 'exists'
     elif r < 0.36:
         variant = 'assoc'
-    if variant in ('fs', 'index'):
+    elif r < 0.42:
+        variant = 'samename'
+    if variant in ('fs', 'index', 'samename'):
         k = max(k, 2)
         names = pat_names(k) if mode == 'pattern' else None
     stores = gen_stores(rng, k, indexed, names=names)
